@@ -119,6 +119,12 @@ class WaitCall:
     done_at_return: list[str]  # keys of all tasks that were done when the call returned
     ticks_before: int  # number of ticks reduced before this call
     stream_before: int
+    journal_after: list = field(default_factory=list)  # (seq_num, key) rows of the run after the call, in id order
+    fid_at_entry: int = -1  # ctx.function_id when the call was entered
+    purged: bool = False  # purge_operations_from ran during this call
+    entries_after: list | None = None  # TaskJournal._entries after the call
+    idx_after: int = 0  # TaskJournal._replay_index after the call
+    insert_seq: int | None = None  # seq_num of the INSERT made during the call
 
 
 @dataclass
@@ -137,6 +143,7 @@ class Trace:
     ops: list[tuple] = field(default_factory=list)  # operation_outputs at the end
     inserts: list[tuple] = field(default_factory=list)  # (seq_num, key, ticks reduced so far, stream length so far)
     final_stream: list[str] = field(default_factory=list)
+    journal_now: list = field(default_factory=list)  # (seq_num, key) rows so far (initial rows + INSERTs seen)
 
 
 class _Obs:
@@ -152,7 +159,7 @@ def _take_snapshot(kind: str, **info: Any) -> None:
     if tr is None or db is None or _Obs.snap_filter is None:
         return
     meta = {"kind": kind, "index": len(tr.snapshots), "ticks": len(tr.ticks), "journal": _journal_rows(db.db_path),
-            "stream": len(db.streams.get((RUN_ID, "published_events"), [])), "writes": db.writes,
+            "stream": len(db.streams.get((RUN_ID, "published_events"), [])), "writes": db.writes, "waits": len(tr.waits),
             # a step body that already performed a non-memoised effect is still executing: on recovery it is
             # re-executed (steps are at-least-once) and the effect happens twice
             "dirty": bool(_Obs.effect_fids & set(RT._get_dbos_instance().inflight_steps)), **info}
@@ -201,6 +208,7 @@ def install_observers() -> None:
         await orig_insert(self, run_id, seq_num, task_key)
         if tr is not None:
             tr.inserts.append((seq_num, task_key, len(tr.ticks), len(tr.stream)))
+            tr.journal_now.append((seq_num, task_key))
             tr._recorded_flag = True  # type: ignore[attr-defined]
         _take_snapshot("journal_post_insert", seq=seq_num, key=task_key)
 
@@ -216,6 +224,7 @@ def install_observers() -> None:
         if _Obs.trace is not None:
             gone = [f for f in before if f not in after]
             _Obs.trace.purges.append((function_id, gone))
+            _Obs.trace._purged_flag = True  # type: ignore[attr-defined]
 
     CRUD.SqliteJournalCrud.purge_operations_from = purge_wrapper  # type: ignore[method-assign]
 
@@ -230,7 +239,13 @@ def install_observers() -> None:
         await journal.load()
         expected = journal.next_expected_key()
         keys = [nt.key for nt in running] + [p.key for p in pending]
+        ticks0, stream0 = len(tr.ticks), len(tr.stream)
         tr._recorded_flag = False  # type: ignore[attr-defined]
+        tr._purged_flag = False  # type: ignore[attr-defined]
+        from dbos._context import get_local_dbos_context
+
+        c = get_local_dbos_context()
+        fid0 = c.function_id if c is not None else -1
         res = await orig_wait(self, running, pending, timeout)
         named = list(running) + list(res.started)
         ret = None
@@ -241,9 +256,12 @@ def install_observers() -> None:
         tr.waits.append(WaitCall(
             mode="replay" if expected is not None else "fresh", expected=expected, inflight=keys, timeout=timeout,
             returned=ret, recorded=bool(getattr(tr, "_recorded_flag", False)),
-            fallback=expected is not None and expected not in keys,
+            fallback=expected is not None and bool(keys) and expected not in keys,
             done_at_return=[nt.key for nt in named if nt.task.done()],
-            ticks_before=len(tr.ticks), stream_before=len(tr.stream)))
+            ticks_before=ticks0, stream_before=stream0, journal_after=list(tr.journal_now), fid_at_entry=fid0,
+            purged=bool(getattr(tr, "_purged_flag", False)),
+            entries_after=None if journal._entries is None else list(journal._entries), idx_after=journal._replay_index,
+            insert_seq=tr.inserts[-1][0] if getattr(tr, "_recorded_flag", False) and tr.inserts else None))
         return res
 
     RT.InternalDBOSAdapter.wait_for_next_task = wait_wrapper  # type: ignore[method-assign]
@@ -260,7 +278,7 @@ class _Proc:
         self.trace = Trace()
         self.workdir = workdir
         self.finished = False
-        self.externals = list(spec.get("externals", []))
+        self.db: SysDB | None = None
 
     def hook(self, loop: VLoop) -> bool:
         """scheduler at quiescence: open one waiting gate, or let (near) virtual time pass"""
@@ -280,6 +298,8 @@ class _Proc:
 
 
 def _observe_db(proc: _Proc, db: SysDB, snap_filter: Any) -> None:
+    proc.db = db
+    proc.trace.journal_now = _journal_rows(db.db_path)
     _Obs.trace = proc.trace
     _Obs.db = db
     _Obs.snap_filter = snap_filter
@@ -307,6 +327,13 @@ async def _finish(proc: _Proc, db: SysDB, ext: Any, rt: Any) -> None:
     except BaseException as e:  # noqa: BLE001
         tr.outcome = ("error", e)
     proc.finished = True
+
+
+def _collect(proc: "_Proc") -> None:
+    """durable facts at the end of the process (also when it never finished)"""
+    db, tr = proc.db, proc.trace
+    if db is None:
+        return
     tr.journal_rows = _journal_rows(db.db_path)
     tr.ops = db.recorded_fids(RUN_ID)
     tr.final_stream = [canon_event(e) for e in db.streams.get((RUN_ID, "published_events"), [])]
@@ -319,6 +346,7 @@ async def _finish(proc: _Proc, db: SysDB, ext: Any, rt: Any) -> None:
         tr.store = json.loads(rows[0][0]) if rows else None
     except Exception as e:  # noqa: BLE001
         tr.store = f"<unavailable {type(e).__name__}: {e}>"
+    db.close()
 
 
 def _run_process(proc: _Proc, main_body: Any) -> None:
@@ -334,12 +362,13 @@ def _run_process(proc: _Proc, main_body: Any) -> None:
         try:
             run_virtual(main, max_time=1000.0 + TIME_HORIZON, hook_factory=hook_factory)
         except TimeoutError:
-            if proc.trace.outcome[0] == "pending":
+            if proc.trace.outcome[0] in ("pending", "aborted"):
                 proc.trace.outcome = ("deadlock", None)
     finally:
         _Obs.trace = None
         _Obs.db = None
         _Obs.snap_filter = None
+        _collect(proc)
         try:
             DBOS.destroy()
         except Exception:  # noqa: BLE001
